@@ -714,7 +714,13 @@ R_<TG_, TA_>::load(ReadStream& stream) noexcept {
 	TransitionSets emptyTransitions;
 	PlanControl control{_core, emptyTransitions};
 
+	// exits and entries below rewrite resumable prongs, keep the loaded ones
+	CompoForks loadedResumable;
+	overwriteWith(loadedResumable, _core.registry.compoResumable);
+
 	_apex.deepChangeToRequested(control);
+
+	overwriteWith(_core.registry.compoResumable, loadedResumable);
 
 	HFSM2_IF_STRUCTURE_REPORT(udpateActivity());
 }
